@@ -1384,6 +1384,11 @@ fn run_all(scripts: Vec<Script>, out_path: &str, rep: &mut Report, sockdir: &str
             rep.mismatch(&key, json!({"script": {"ctor": sc.ctor, "steps": sc.steps.iter().map(step_json).collect::<Vec<_>>()}, "difference": det}));
         } else if let Some(m) = o.model {
             rep.count("lanes-equal-but-not-the-model");
+            // the request-level deviations are properties of the shared code, whichever call exposes them
+            let m = match m.find(":request:") {
+                Some(p) => format!("request:{} differs from the model", &m[p + 9..]),
+                None => m,
+            };
             let e = notes.entry(m).or_insert((0, json!({"ctor": sc.ctor, "steps": sc.steps.iter().map(step_json).collect::<Vec<_>>()})));
             e.0 += 1;
         }
